@@ -701,7 +701,7 @@ def build_clsdef(env, items, style):
 
 def perform(env: Env, act):
     """Execute `act`; returns ('ok', info) or ('exc', class name)."""
-    from quantity import QuantityMeta, Quantity, _UNIT_OP_CACHE
+    from quantity import QuantityMeta, Quantity
     from quantity.term import Term
     a = act['a']
     try:
@@ -819,16 +819,23 @@ def perform(env: Env, act):
             env.units[u.symbol] = u
             return 'ok', {}
         if a == 'evict':
-            _UNIT_OP_CACHE.clear()
+            # memo eviction reaches private names; if a refactoring renamed
+            # them this fault kind is simply unavailable (never an error)
             n = 0
+            try:
+                import quantity
+                quantity._UNIT_OP_CACHE.clear()
+                n += 1
+            except AttributeError:
+                pass
             for u in env.units.values():
-                d = u._definition
+                d = getattr(u, '_definition', None)
                 if d is not None:
                     for slot in ('_normalized', '_hash'):
                         try:
                             delattr(d, slot)
                             n += 1
-                        except AttributeError:
+                        except (AttributeError, TypeError):
                             pass
             return 'ok', {'evicted': n}
     except Exception as e:     # noqa: a rejected declaration
